@@ -24,7 +24,44 @@ type opCase struct {
 	Mode  int // 0: small integers (everything exact), 1: dyadic and Gaussian values
 	A     int // index of the scalar alpha
 	P     int // small integer parameter (power, norm, trans flag, ...)
+	// Share != 0: two operand positions are built from ONE matrix object
+	// (see the sh* constants): the same interface value twice, the object and
+	// its T(), two equal Transpose wrappers, the object and a slice covering
+	// all of it. The result must still depend on the values only.
+	Share int `json:",omitempty"`
 }
+
+// share patterns
+const (
+	shrNone      = iota
+	shrSame      // both positions hold the same interface value
+	shrTRight    // second = first.T() (a TransposeVec for Vector positions)
+	shrTLeft     // first = second.T()
+	shrWrapBoth  // both positions hold mat.Transpose{X} of the same X
+	shrWholeView // second = Slice/SliceVec/SliceSym/SliceTri of the first covering all of it
+	nShare
+)
+
+var shareNames = [...]string{"none", "same", "b=a.T()", "a=b.T()", "Transpose{x},Transpose{x}", "a,a.Slice(all)"}
+
+// sharePair returns the first two operand positions (not fixed by the
+// operation) that take the same kind of argument.
+func sharePair(op *opDef) (int, int, bool) {
+	for i, p := range op.params {
+		if p.fixed != nil {
+			continue
+		}
+		for j := i + 1; j < len(op.params); j++ {
+			if q := op.params[j]; q.fixed == nil && q.role == p.role {
+				return i, j, true
+			}
+		}
+	}
+	return 0, 0, false
+}
+
+// shareT reports whether the derived operand is the transpose of the source.
+func shareT(share int) bool { return share == shrTRight || share == shrTLeft }
 
 func eligible(k *kind, p param) bool {
 	switch p.role {
@@ -57,7 +94,7 @@ func eligibleKinds(p param) []string {
 
 // resolve makes the dimension variables consistent with the shape
 // requirements of the kinds (square, n×1, 1×n, tall, wide).
-func resolve(op *opDef, ks []*kind, dims []int) ([]int, bool) {
+func resolve(op *opDef, ks []*kind, dims []int, share, src, dst int) ([]int, bool) {
 	n := op.nvars
 	one := n
 	parent := make([]int, n+1)
@@ -84,7 +121,7 @@ func resolve(op *opDef, ks []*kind, dims []int) ([]int, bool) {
 		}
 	}
 	for i, p := range op.params {
-		if p.role != pMatrix {
+		if p.role != pMatrix || (share != shrNone && i == dst) {
 			continue
 		}
 		switch ks[i].shape {
@@ -94,6 +131,20 @@ func resolve(op *opDef, ks []*kind, dims []int) ([]int, bool) {
 			union(p.cv, one)
 		case shRow:
 			union(p.rv, one)
+		}
+	}
+	if share != shrNone {
+		// the derived operand has the shape of the source (or of its transpose)
+		ps, pd := op.params[src], op.params[dst]
+		switch {
+		case ps.role == pVector:
+			union(ps.rv, pd.rv)
+		case shareT(share):
+			union(pd.rv, ps.cv)
+			union(pd.cv, ps.rv)
+		default:
+			union(pd.rv, ps.rv)
+			union(pd.cv, ps.cv)
 		}
 	}
 	val := make([]int, n+1)
@@ -108,7 +159,7 @@ func resolve(op *opDef, ks []*kind, dims []int) ([]int, bool) {
 	get := func(v int) int { return val[find(v)] }
 	tallOK := func() bool {
 		for i, p := range op.params {
-			if p.role != pMatrix {
+			if p.role != pMatrix || (share != shrNone && i == dst) {
 				continue
 			}
 			switch ks[i].shape {
@@ -125,7 +176,7 @@ func resolve(op *opDef, ks []*kind, dims []int) ([]int, bool) {
 		return true
 	}
 	for i, p := range op.params {
-		if p.role != pMatrix {
+		if p.role != pMatrix || (share != shrNone && i == dst) {
 			continue
 		}
 		sh := ks[i].shape
@@ -204,6 +255,27 @@ func panicKey(op *opDef, base, text string) string {
 	return base + "/" + slug(text)
 }
 
+// checkValues is the part of oracle 1 that does not depend on the kind: Dims
+// and At of an operand reproduce the logical value.
+func checkValues(k *kind, m mat.Matrix, l *logical) *vk.Failure {
+	r, c := m.Dims()
+	if r != l.r || c != l.c {
+		return vk.Failf("at/derived-dims", "operand derived from kind %s: Dims()=(%d,%d) want (%d,%d)", k.name, r, c, l.r, l.c)
+	}
+	tol := 0.0
+	if k.approx {
+		tol = approxTol(l)
+	}
+	for i := 0; i < r; i++ {
+		for j := 0; j < c; j++ {
+			if got, want := m.At(i, j), l.at(i, j); !vk.Close(got, want, tol) {
+				return vk.Failf("at/derived-value", "operand derived from kind %s (%dx%d): At(%d,%d)=%v want %v", k.name, r, c, i, j, got, want)
+			}
+		}
+	}
+	return nil
+}
+
 func recvName(t recvType) string {
 	return [...]string{"func", "Dense", "VecDense", "SymDense", "TriDense"}[t]
 }
@@ -264,7 +336,42 @@ func checkOp(sub string, c opCase) *vk.Failure {
 		}
 		x.ks[i] = k
 	}
-	d, ok := resolve(op, x.ks, c.Dims)
+	// operands built from one object
+	share, src, dst := c.Share, -1, -1
+	if share < 0 || share >= nShare {
+		return vk.Failf("bad-case", "share pattern %d", share)
+	}
+	if share != shrNone {
+		si, sj, okp := sharePair(op)
+		if !okp {
+			share = shrNone
+		} else {
+			src, dst = si, sj
+			if share == shrTLeft {
+				src, dst = sj, si
+			}
+			ps, pd := op.params[src], op.params[dst]
+			switch {
+			case ps.role == pSym || ps.role == pTri:
+				// T() of these is not a Symmetric/Triangular of the same orientation
+				if share != shrWholeView {
+					share = shrSame
+				}
+			case ps.role == pVector:
+				if share == shrWrapBoth || (shareT(share) && pd.colOnly) {
+					share = shrSame
+				}
+			case share == shrWrapBoth:
+				// the kind must be able to hold the transposed value
+				k := x.ks[src]
+				if (k.shape != shAny && k.shape != shSquare) || opposite(k.class) != k.class {
+					share = shrSame
+				}
+			}
+			x.ks[dst] = x.ks[src]
+		}
+	}
+	d, ok := resolve(op, x.ks, c.Dims, share, src, dst)
 	if !ok {
 		vk.Class("infeasible-shape")
 		return nil
@@ -280,6 +387,9 @@ func checkOp(sub string, c opCase) *vk.Failure {
 	x.lg = make([]*logical, len(op.params))
 	var base []float64
 	for i, p := range op.params {
+		if share != shrNone && i == dst {
+			continue // derived from the source operand after rendering
+		}
 		k := x.ks[i]
 		r, cdim := 0, 0
 		if p.role == pVector {
@@ -291,6 +401,10 @@ func checkOp(sub string, c opCase) *vk.Failure {
 			r, cdim = d[p.rv], d[p.cv]
 		}
 		fl := max(p.fl, k.flavor)
+		if share != shrNone && i == src {
+			fl = max(fl, op.params[dst].fl)
+			p.nz = p.nz || op.params[dst].nz
+		}
 		var l *logical
 		if op.shared {
 			if base == nil {
@@ -316,7 +430,13 @@ func checkOp(sub string, c opCase) *vk.Failure {
 		} else {
 			l = genLogical(k.class, r, cdim, fl, c.Mode, p.nz, x.rng)
 		}
-		if op.prep != nil {
+		if k.unit {
+			for q := 0; q < min(r, cdim); q++ {
+				l.v[q*cdim+q] = 1
+			}
+		}
+		if op.prep != nil && !(k.unit && op.name == "Exp") {
+			// (Exp's rescaling would destroy the unit diagonal)
 			op.prep(x, i, l)
 		}
 		x.lg[i] = l
@@ -324,9 +444,27 @@ func checkOp(sub string, c opCase) *vk.Failure {
 
 	// ---- render, oracle 1
 	x.args = make([]mat.Matrix, len(op.params))
+	var wrapped mat.Matrix // the X of shrWrapBoth
 	for i := range op.params {
+		if share != shrNone && i == dst {
+			continue
+		}
 		k := x.ks[i]
 		var m mat.Matrix
+		if share == shrWrapBoth && i == src {
+			if res := vk.Call(func() { wrapped = k.build(b, x.lg[i].transposed()) }); res.Outcome != vk.Returned {
+				return vk.Failf("render-panic", "building kind %s panicked: %s", k.name, res.Text)
+			}
+			m = mat.Transpose{Matrix: wrapped}
+			if f := checkValues(k, m, x.lg[i]); f != nil {
+				return f
+			}
+			if k.approx {
+				adopt(m, x.lg[i])
+			}
+			x.args[i] = m
+			continue
+		}
 		if res := vk.Call(func() { m = k.build(b, x.lg[i]) }); res.Outcome != vk.Returned {
 			return vk.Failf("render-panic", "building kind %s (%dx%d) panicked: %s", k.name, x.lg[i].r, x.lg[i].c, res.Text)
 		}
@@ -337,6 +475,44 @@ func checkOp(sub string, c opCase) *vk.Failure {
 			adopt(m, x.lg[i])
 		}
 		x.args[i] = m
+	}
+	if share != shrNone {
+		// the derived operand: same object, another wrapper
+		a := x.args[src]
+		l := x.lg[src]
+		var m mat.Matrix = a
+		switch share {
+		case shrTRight, shrTLeft:
+			l = l.transposed()
+			if op.params[src].role == pVector {
+				m = mat.TransposeVec{Vector: a.(mat.Vector)}
+			} else {
+				m = a.T()
+			}
+		case shrWrapBoth:
+			m = mat.Transpose{Matrix: wrapped}
+		case shrWholeView:
+			switch t := a.(type) {
+			case *mat.Dense:
+				m = t.Slice(0, l.r, 0, l.c)
+			case *mat.VecDense:
+				m = t.SliceVec(0, l.r)
+			case *mat.SymDense:
+				m = t.SliceSym(0, l.r)
+			case *mat.TriDense:
+				m = t.SliceTri(0, l.r)
+			}
+		}
+		if f := checkValues(x.ks[src], m, l); f != nil {
+			return f
+		}
+		if x.ks[src].approx && l != x.lg[src] {
+			// factorization kinds: the value is what At returns (EigenSym.T()
+			// is the receiver itself and its At is symmetric only to rounding)
+			adopt(m, l)
+		}
+		x.lg[dst], x.args[dst] = l, m
+		vk.Class("share=" + shareNames[share])
 	}
 
 	// ---- evidence
@@ -370,8 +546,8 @@ func checkOp(sub string, c opCase) *vk.Failure {
 	}
 	vk.Class("recv=" + recvName(op.recv) + "/" + stateNames[state])
 	vk.Class("mode=" + fmt.Sprint(c.Mode))
-	if (nonCompact || (len(x.ks) == 0 && state != stZero)) && big >= 2 {
-		vk.NonTrivial(op.name, strings.Join(names, "|"), state, x.p, shapeClass(d))
+	if (nonCompact || share != shrNone || (len(x.ks) == 0 && state != stZero)) && big >= 2 {
+		vk.NonTrivial(op.name, strings.Join(names, "|"), state, x.p, shapeClass(d), share)
 	}
 	vk.Sample(sub, c)
 
@@ -411,7 +587,11 @@ func checkOp(sub string, c opCase) *vk.Failure {
 		}
 	}
 	what := func(run string) string {
-		return fmt.Sprintf("%s(%s) %s recv=%s dims=%v alpha=%v p=%d mode=%d", op.name, strings.Join(names, ", "), run, stateNames[state], d, x.alpha, x.p, c.Mode)
+		sh := ""
+		if share != shrNone {
+			sh = fmt.Sprintf(" operands %d,%d share one object (%s)", src, dst, shareNames[share])
+		}
+		return fmt.Sprintf("%s(%s)%s %s recv=%s dims=%v alpha=%v p=%d mode=%d", op.name, strings.Join(names, ", "), sh, run, stateNames[state], d, x.alpha, x.p, c.Mode)
 	}
 	if res := vk.Call(func() { op.run(x) }); res.Outcome != vk.Returned {
 		return vk.Failf(panicKey(op, "panic", res.Text), "%s ended in %v: %s", what("rendered operands"), res.Outcome, res.Text)
@@ -589,6 +769,58 @@ func TestOpsExhaustive(t *testing.T) {
 	}
 }
 
+// TestOpsShared: for every operation with two operand positions of the same
+// kind of argument, both are built from ONE object of every kind in every share
+// pattern (same value twice, x and x.T(), two equal Transpose wrappers, x and a
+// slice covering all of it); reference and all-basic run use independent values.
+func TestOpsShared(t *testing.T) {
+	reps := vk.Pick(2, 6)
+	for _, op := range ops {
+		si, _, ok := sharePair(op)
+		if !ok {
+			continue
+		}
+		op := op
+		srcKinds := eligibleKinds(op.params[si])
+		var states []int
+		for _, st := range statesFor(op) {
+			if st == stZero || st == stView {
+				states = append(states, st)
+			}
+		}
+		n := len(srcKinds) * (nShare - 1) * len(states) * reps
+		sub := "shared/" + op.name
+		gen := func(i int) opCase {
+			idx := i / reps
+			st := states[idx%len(states)]
+			idx /= len(states)
+			share := 1 + idx%(nShare-1)
+			kname := srcKinds[idx/(nShare-1)]
+			rng := vk.NewSplitMix(hash64(vk.Seed(), "shared", op.name, i))
+			c := opCase{Op: op.name, State: st, Share: share, Seed: rng.Uint64(), Mode: i % 2, A: rng.Intn(len(alphas)), P: rng.Intn(op.nP)}
+			for _, p := range op.params {
+				if p.fixed != nil {
+					continue
+				}
+				if p.role == op.params[si].role {
+					c.Kinds = append(c.Kinds, kname)
+				} else {
+					el := eligibleKinds(p)
+					c.Kinds = append(c.Kinds, el[rng.Intn(len(el))])
+				}
+			}
+			c.Dims = make([]int, op.nvars)
+			for k := range c.Dims {
+				c.Dims[k] = 2 + rng.Intn(6)
+			}
+			return c
+		}
+		t.Run(op.name, func(t *testing.T) {
+			vk.Enumerate(t, sub, n, gen, checkOpSub(sub))
+		})
+	}
+}
+
 // ---- random part -------------------------------------------------------------------
 
 func drawCase(t *rapid.T, op *opDef, maxDim int) opCase {
@@ -600,6 +832,13 @@ func drawCase(t *rapid.T, op *opDef, maxDim int) opCase {
 		c.Kinds = append(c.Kinds, rapid.SampledFrom(eligibleKinds(p)).Draw(t, "kind"))
 	}
 	c.State = rapid.SampledFrom(statesFor(op)).Draw(t, "state")
+	for _, name := range c.Kinds {
+		if kindByID[name].fam == "fact" && maxDim > 24 {
+			// At of a factorization costs O(n^2) per element (documented as
+			// slow): a generic-path product over it would take minutes at n=200
+			maxDim = 24
+		}
+	}
 	c.Dims = make([]int, op.nvars)
 	for i := range c.Dims {
 		if maxDim <= 8 {
@@ -612,6 +851,9 @@ func drawCase(t *rapid.T, op *opDef, maxDim int) opCase {
 	c.Mode = rapid.IntRange(0, 1).Draw(t, "mode")
 	c.A = rapid.IntRange(0, len(alphas)-1).Draw(t, "alpha")
 	c.P = rapid.IntRange(0, op.nP-1).Draw(t, "p")
+	if _, _, ok := sharePair(op); ok {
+		c.Share = rapid.SampledFrom([]int{0, 0, 0, 0, 0, 0, 1, 2, 3, 4, 5}).Draw(t, "share")
+	}
 	return c
 }
 
